@@ -27,7 +27,7 @@ ASSUMPTIONS = [
 ]
 TRUSTED = [
     "Coq 8.16.1 kernel + coqc; vm_compute for closed witnesses; no native_compute",
-    "translator tools/params/p30_dispatch.py (variants of enum Command, arms of dispatch_command, catch-all macro)",
+    "translator tools/params/p30_dispatch.py (variants of enum Command, arms of dispatch_command, catch-all macro) and p31_query_numeric.py (unwrap vs fallible action in limit_clause/offset_clause/number)",
     "extraction: ExtrOcamlBasic only; ocaml/driver.ml, conv.ml, p_parse.ml (rendering, AST decoding)",
     "correspondence harness /verif/harness (vharn fn parse_cmd/parse_disp/parse_kind/parse_json) built against /repo with --cfg sneldb_verif",
     "python oracle: canonical rendering of the generated AST, CPython float()/json (independent of model and implementation)",
@@ -35,7 +35,7 @@ TRUSTED = [
 
 CLAIMED = True
 MANIFEST = {
- "level_text": "Theorems (all inputs / all ASTs, no bound): on the byte-level model of parse_command and of the QUERY/FIND peg grammar, print-then-parse is the identity for every well-formed WHERE expression and every well-formed Query command under every letter-casing of the keywords (NOT > AND > OR and parentheses follow), the supplied fuel never runs out, the only panics are the four unchecked numeric conversions (refuted with witnesses; with the proposed repair the parser never panics and accepts the same commands), and Batch is the only Command variant without a dispatch arm (table regenerated from dispatcher.rs). The model is run against the real parse_command on generated, mutated and printed inputs; panics, aborts (stack overflow) and timeouts of the implementation are caught in a child process and reported by a direct oracle.",
+ "level_text": "Theorems (all inputs / all ASTs, no bound) on a byte-level model of parse_command and of the QUERY/FIND peg grammar: print-then-parse is the identity for every well-formed WHERE expression and every well-formed Query command (all clause kinds), at the grammar entry point and through parse_command (trim, token validation, head switch), under every letter-casing of the keywords; NOT > AND > OR, parentheses and right-nesting follow; the supplied fuel never runs out; the only panics are the four unchecked numeric conversions (witnesses; a decidable input-level class outside which the grammar provably does not panic; with the proposed repair the parser never panics and accepts the same commands); Batch is the only Command variant without a dispatch arm. The dispatch table and the checked/unchecked form of the conversions are regenerated from the Rust text on every run. The model is run against the real parse_command on printed, grammar-derived, mutated, numeric-limit, nesting, whitespace and random inputs; panics, aborts (stack overflow) and timeouts of the implementation are caught in a child process and reported by a direct oracle, as is parse(print c) != c on the real parser.",
  "design_ref": "DESIGN.md §6 C17",
  "level_note": "Trusted: Coq kernel; tools/params/p30_dispatch.py; ExtrOcamlBasic extraction + OCaml driver; the Rust harness; CPython (expected renderings, float and JSON comparison). The peg semantics are hand-modelled; DEFINE/BATCH/PLOT and non-ASCII outside string literals are covered for totality only."
 }
